@@ -20,7 +20,9 @@ GLOBAL_ASSUMPTIONS = [
     "Python ints are mathematical integers (exact for Python); strings are sequences of code points",
     "formatting (%, format, f-strings, repr, join) is an uninterpreted total function of its arguments",
     "no asynchronous exception arrives between two statements; termination is not proved (partial correctness)",
-    "field type tags in /verif/specs are trusted typing assumptions on heap reads",
+    "field type tags in /verif/specs are trusted typing assumptions on heap reads, also on reads made while a postcondition is evaluated: "
+    "a clause about an object whose stored shape contradicts its tag can be vacuously proved unless simplification or a 1 s "
+    "quantifier-free check sees the contradiction (DESIGN.md 11.2, known soundness limit)",
     "== on values of statically unknown type is structural/identity equality",
     "dict and set keys are compared by value identity: hashing, __hash__/__eq__ of key objects and unhashable keys are not modelled",
     "threads are not modelled: every function is verified as sequential code; recursion goes through the function's own contract",
